@@ -184,13 +184,14 @@ def builtin_history():
         return {"name": name, "kind": kind, "module": module, "const": const, "default": None, "kwdefault": None, "setconst": None, "tupconst": None,
                 "sset": None, "pair": None, "nested": None, "explicit": None, "hidden": None, "shadow": None, "refs": [list(r) for r in refs]}
     spec = {"pkg": "vpk", "nodes": [{"name": "round", "kind": "u", "module": "a"}, {"name": "divmod", "kind": "u", "module": "a"},
+                                    {"name": "LIMIT", "kind": "u", "module": "b"},
                                     {"name": "G0", "kind": "v", "module": "a", "vkind": "int", "value": 1},
                                     {"name": "G1", "kind": "v", "module": "a", "vkind": "tuplist", "value": [3, [1, 2]]},
                                     {"name": "G2", "kind": "v", "module": "b", "vkind": "dict", "value": {"k": 4}},
                                     fn("h0", "p", "a", 3, [("divmod", "dead"), ("G2", "attr")]),
                                     fn("m0", "m", "a", 10, [("round", "dead"), ("G0", "bare"), ("G1", "bare")]),
                                     fn("m1", "m", "a", 20, [("h0", "bare")]),
-                                    fn("m2", "m", "b", 30, [])]}
+                                    fn("m2", "m", "b", 30, [("LIMIT", "dead")])]}
     spec0 = copy.deepcopy(spec)
     events, specs, descs = [], [], []
 
@@ -210,6 +211,9 @@ def builtin_history():
     i = [k for k, n in enumerate(spec["nodes"]) if n["name"] == "divmod"][0]
     spec["nodes"][i] = h
     step([{"op": "exec", "mod": "a", "src": def_src(spec, h)}], "define the previously undefined name divmod (a builtin name) as a plain function", ["m1", "m0"])
+    step([], "rebind variable G0 (no change, query of m2)", ["m2"])
+    vprog.node(spec, "LIMIT").update({"kind": "v", "vkind": "none", "value": None})
+    step([{"op": "setattr", "mod": "b", "name": "LIMIT", "value": None}], "define the previously undefined name LIMIT as None", ["m2"])
     return spec0, events, specs, descs
 
 
